@@ -961,6 +961,9 @@ pub struct G {
     pub link_names: bool,
     /// block content wrapped in inline elements
     pub inline_wrap: bool,
+    /// digits-only `<sup>` elements (rendered as superscript characters), some with style
+    /// attributes; literal markup, so only for checks that do not identify characters
+    pub digit_sup: bool,
 }
 
 impl Default for G {
@@ -987,6 +990,7 @@ impl Default for G {
             colspans: true,
             link_names: false,
             inline_wrap: true,
+            digit_sup: false,
         }
     }
 }
@@ -998,6 +1002,10 @@ impl G {
     }
     pub fn depth(mut self, d: u32) -> G {
         self.depth = d;
+        self
+    }
+    pub fn with_digit_sup(mut self) -> G {
+        self.digit_sup = true;
         self
     }
     pub fn with_ids(mut self) -> G {
@@ -1076,6 +1084,23 @@ pub fn inlines_in(g: &G, depth: u32, in_link: bool) -> BoxedStrategy<Vec<Inline>
     }
     if g.br {
         leaves.push((1, Just(Inline::Br).boxed()));
+    }
+    if g.digit_sup {
+        leaves.push((
+            1,
+            prop_oneof![
+                Just("<sup>2</sup>"),
+                Just("<sup>10</sup>"),
+                Just("<sup style=\"white-space:pre-wrap\">3</sup>"),
+                Just("<sup style=\"white-space:pre\">45</sup>"),
+                Just("<sup style=\"color:#123456\">6</sup>"),
+                Just("<sup style=\"display:none\">7</sup>"),
+                Just("<sup><b>8</b></sup>"),
+                Just("<sup>9a</sup>"),
+            ]
+            .prop_map(|s| Inline::Raw(s.to_string()))
+            .boxed(),
+        ));
     }
     let leaf = proptest::strategy::Union::new_weighted(leaves).boxed();
     let item: BoxedStrategy<Inline> = if depth == 0 {
